@@ -153,12 +153,24 @@ pub fn run(tier: &str) -> i32 {
                 let l = [(pool[i], s1), (pool[j], s2)];
                 let text = list_text(&l);
                 let exp = expected_list(&l);
-                if exp.len() < pool[i].combos.len() + pool[j].combos.len() {
+                let overlap = exp.len() < pool[i].combos.len() + pool[j].combos.len();
+                if overlap {
                     overlapping += 1;
                 }
                 if let Some(b) = check_range_text(&text, &exp) {
                     if bad.len() < 3 {
                         bad.push((text, b));
+                    }
+                }
+                // the same text before and after an overlapping token: the repeat wins its combos back
+                if overlap && i != j && s1 == ":0.5" {
+                    count += 1;
+                    let l3 = [(pool[i], ":0.5"), (pool[j], ":0.25"), (pool[i], ":0.5")];
+                    let text3 = list_text(&l3);
+                    if let Some(b) = check_range_text(&text3, &expected_list(&l3)) {
+                        if bad.len() < 3 {
+                            bad.push((text3, b));
+                        }
                     }
                 }
             }
@@ -225,12 +237,20 @@ pub fn run(tier: &str) -> i32 {
         let (i, j) = (ij / nt, ij % nt);
         let mut bad = vec![];
         for k in 0..nt {
-            let l = [(tri[i], ""), (tri[j], ":0.5"), (tri[k], ":0.25")];
-            let text = list_text(&l);
-            let exp = expected_list(&l);
-            if let Some(b) = check_range_text(&text, &exp) {
-                if bad.len() < 2 {
-                    bad.push((text, b));
+            // three different weights; and the same text twice around another token (the later
+            // occurrence must win its combos back)
+            let mut ls = vec![[(tri[i], ""), (tri[j], ":0.5"), (tri[k], ":0.25")]];
+            if k == i {
+                ls.push([(tri[i], ":0.5"), (tri[j], ""), (tri[i], ":0.5")]);
+                ls.push([(tri[i], ""), (tri[j], ":0.25"), (tri[i], "")]);
+            }
+            for l in ls {
+                let text = list_text(&l);
+                let exp = expected_list(&l);
+                if let Some(b) = check_range_text(&text, &exp) {
+                    if bad.len() < 2 {
+                        bad.push((text, b));
+                    }
                 }
             }
         }
@@ -241,7 +261,7 @@ pub fn run(tier: &str) -> i32 {
             rep.violation(Violation { key: format!("range={}", text), sub: "token-triples".into(), case: json!({"text": text}), expected: json!("tokens applied in order, later overwrites"), observed: b });
         }
     }
-    rep.sub("token-triples", "all ordered triples over a sub-alphabet of tokens on ranks A,K,Q (23 rank-pair tokens + 17 card pairs; every third token in quick), weights (1, 0.5, 0.25)", (nt * nt * nt) as u64, (nt * nt * nt) as u64, false, json!({"tokens": nt}));
+    rep.sub("token-triples", "all ordered triples over a sub-alphabet of tokens on ranks A,K,Q (23 rank-pair tokens + 17 card pairs; every third token in quick), weights (1, 0.5, 0.25); plus every A,B,A list with the textually identical token before and after another one", (nt * nt * nt + 2 * nt * nt) as u64, (nt * nt * nt + 2 * nt * nt) as u64, false, json!({"tokens": nt}));
 
     // (e) spaces at every offset; empty input
     let texts: Vec<String> = vec!["QQ+,A9s+:0.5,88-66,AQs-A9s:0.25,44,JTs,72o,AsKs".to_string(), "22+:0.3".into(), "AKo-A2o,KsAs:0".into(), "T9s+,T9o+:1.0".into()];
